@@ -54,7 +54,9 @@ PAYLOAD = "__import__('canary_module_that_does_not_exist')"
 PIECES = ["'", '"', "''", '""', "'''", '"""', '\\', '\\\\', '\n', '\r', '\0', '{', '}', '+', ' ', PAYLOAD, "''''", '""""', "\\'", '\\"', '#', ')', '(', 'a',
           '+' + PAYLOAD + '#', ')+' + PAYLOAD + '#', '+' + PAYLOAD + '+', '\n' + PAYLOAD + '\n',
           '\N{BULLET}', '\ud800', '\x7f', '\\N{BULLET}', '\\x', '\\u', "'+" + PAYLOAD + "+'", '"+' + PAYLOAD + '+"',
-          "'''+" + PAYLOAD + "+'''", '"""+' + PAYLOAD + '+"""']
+          "'''+" + PAYLOAD + "+'''", '"""+' + PAYLOAD + '+"""',
+          # quote, payload, comment: whatever follows the payload is swallowed
+          "'+" + PAYLOAD + '#', '"+' + PAYLOAD + '#', "'''+" + PAYLOAD + '#', '"""+' + PAYLOAD + '#']
 
 
 def strings(maxlen):
